@@ -383,6 +383,8 @@ Record uses_tables := {
                                                  (field of the implementation base) of that type *)
   u_base_refs : list string;                  (* slots the base-class constructor itself calls into when
                                                  they are not dummies (features.dimension()) *)
+  u_base_unguarded : list string;             (* slots the base-class constructor calls into WITHOUT an
+                                                 is_dummy guard (none in the shipped code) *)
   u_methods : list method_decl;
   u_dispatched : list string }.               (* names handled by tapkee_method_handle(...) *)
 
@@ -422,6 +424,8 @@ Inductive outcome :=
 | TouchesDummy (slot : string) (k : kind)
                                       (* the method body refers to a slot that holds a dummy callback: calling it
                                          throws "Dummy <k> callback is set" *)
+| NotDispatched                       (* no tapkee_method_handle line: embedUsing falls through and returns an
+                                         empty TapkeeOutput *)
 | Broken (why : string).              (* tables inconsistent / chain does not reach a method *)
 
 Fixpoint first_guard (u : uses_tables) (m : method_decl) (slots : env)
@@ -452,14 +456,21 @@ Fixpoint first_dummy_ref (slots : env) (refs : list string) : option outcome :=
     end
   end.
 
+(* C++ order of events: initialize() runs the base-class constructor (unguarded calls on callbacks happen
+   there), then embedUsing tests the three guards, then dispatches on the method, then the method's
+   validate()/embed() run. *)
 Definition run_method_on (u : uses_tables) (m : method_decl) (slots : env) : outcome :=
-  if negb (existsb (String.eqb (md_name m)) (u_dispatched u)) then Broken "method is not dispatched" else
-  match first_guard u m slots (u_guards u) with
+  match first_dummy_ref slots (u_base_unguarded u) with
   | Some o => o
   | None =>
-    match first_dummy_ref slots (md_refs m) with
+    match first_guard u m slots (u_guards u) with
     | Some o => o
-    | None => Ok
+    | None =>
+      if negb (existsb (String.eqb (md_name m)) (u_dispatched u)) then NotDispatched else
+      match first_dummy_ref slots (md_refs m) with
+      | Some o => o
+      | None => Ok
+      end
     end
   end.
 
